@@ -25,6 +25,9 @@
 #include <stdio.h>
 #include <stdlib.h>
 #include <string.h>
+#include <signal.h>
+#include <setjmp.h>
+#include <unistd.h>
 #include <algorithm>
 #include <string>
 #include <vector>
@@ -672,8 +675,49 @@ static int nth_set(uint64_t m, int64_t j)
 	return -1;
 }
 
+// ------------------------------------------------------------------ watchdog
+// A corrupted map can make a library call spin for ever. Workers have no other watchdog, so every run arms a
+// real-time alarm (a run takes well under a millisecond); when it fires the run is abandoned where it is
+// (the map is leaked, the worker is recycled after any violation) and reported as a hang.
+#define WATCHDOG_S 20
+static sigjmp_buf g_wd_jmp;
+static volatile sig_atomic_t g_wd_armed;
+static volatile size_t g_cur_op;
+static void wd_handler(int)
+{
+	if (g_wd_armed) { g_wd_armed = 0; siglongjmp(g_wd_jmp, 1); }
+}
+
 // ------------------------------------------------------------------ interpreter
+static void run_plan(const RunSpec &spec);
 static void run(const char *, const RunSpec &spec)
+{
+	struct sigaction sa, old;
+	memset(&sa, 0, sizeof sa);
+	sa.sa_handler = wd_handler;
+	sigaction(SIGALRM, &sa, &old);
+	unsigned prev = alarm(0);
+	if (sigsetjmp(g_wd_jmp, 1) == 0) {
+		g_wd_armed = 1;
+		alarm(WATCHDOG_S);
+		run_plan(spec);
+		g_wd_armed = 0;
+		alarm(0);
+	} else {
+		alarm(0);
+		char site[64];
+		snprintf(site, sizeof site, "op:%s[%s]",
+			 g_cur_op < spec.plan.ops.size() ? op_names[spec.plan.ops[g_cur_op].kind % K_N] : "end-of-run-checks", impl_names[R.impl]);
+		fail("hang:wallclock", site, "op %zu: the run did not finish within %d s of real time (a run normally takes under a millisecond)",
+		     (size_t)g_cur_op, WATCHDOG_S);
+		result().steps = spec.plan.ops.size();
+		result().fingerprint = result().ev_hash;
+	}
+	sigaction(SIGALRM, &old, NULL);
+	if (prev) alarm(prev);
+}
+
+static void run_plan(const RunSpec &spec)
 {
 	const Plan &p = spec.plan;
 	build_universe();
@@ -725,6 +769,7 @@ static void run(const char *, const RunSpec &spec)
 
 	for (size_t i = 0; i < p.ops.size() && !failed(); i++) {
 		const Op &op = p.ops[i];
+		g_cur_op = i;
 		ev(100 + (uint32_t)op.kind, op.task, op.a[0], op.a[1]);
 		int wi = op.task;
 		int64_t a0 = op.a[0];
@@ -875,6 +920,7 @@ static void run(const char *, const RunSpec &spec)
 
 	Result &res = result();
 	res.steps = p.ops.size();
+	g_cur_op = p.ops.size();
 	if (!failed()) {
 		// the iterators go away ...
 		for (int n = 1; n < MAXW && !failed(); n++) {
